@@ -86,7 +86,10 @@ func (r *runner) checkGrid(st *Step, c *Client) {
 			for q := range planes {
 				p := planeOf(q)
 				lox, hix, loz, hiz := float64(p.cx-p.ex), float64(p.cx+p.ex), float64(p.cz-p.ez), float64(p.cz+p.ez)
-				if lox < float64(minx) || hix > float64(maxx) || loz < float64(minz) || hiz > float64(maxz) {
+				// (a millimetre of tolerance, as for cell overlap: merged planes are convex
+				// combinations computed in float32 and can overshoot a bound by one ulp)
+				const tol = 1e-3
+				if lox < float64(minx)-tol || hix > float64(maxx)+tol || loz < float64(minz)-tol || hiz > float64(maxz)+tol {
 					r.v("C20", "bounds", "session %s: plane %+v has a footprint x[%g,%g] z[%g,%g] outside the grid bounds x[%g,%g] z[%g,%g]", id, p, lox, hix, loz, hiz, minx, maxx, minz, maxz)
 				}
 				// every cell whose interior the footprint's interior overlaps
